@@ -1,0 +1,25 @@
+//go:build verif
+
+package utils
+
+// Contracts for the goverif VC generator (/verif). Comment-only file: it adds no code.
+
+// $crlfLen: length of s after removing at most one trailing \n and then at most one trailing \r.
+//@ spec $nlCut(s string) int = ite(len(s) != 0 && s[len(s)-1] == '\n', len(s)-1, len(s))
+//@ spec $crlfLen(s string) int = ite($nlCut(s) != 0 && s[$nlCut(s)-1] == '\r', $nlCut(s)-1, $nlCut(s))
+
+//@ func CrLfTrimString [C08 C19]
+//@   ensures len(result) == $crlfLen(s)
+//@   ensures forall(k, 0, len(result), result[k] == s[k])
+//@   ensures len(s) - len(result) <= 2
+//@   ensures imp(len(s) - len(result) == 2, s[len(s)-2] == '\r' && s[len(s)-1] == '\n')
+//@   ensures imp(len(s) - len(result) == 1, s[len(s)-1] == '\n' || s[len(s)-1] == '\r')
+//@   ensures imp(len(s) == len(result), len(s) == 0 || (s[len(s)-1] != '\n' && s[len(s)-1] != '\r'))
+
+//@ func CrLfTrim [C08 C19]
+//@   ensures len(result) == ite(len(b) != 0 && b[len(b)-1] == '\n', ite(len(b)-1 != 0 && b[len(b)-2] == '\r', len(b)-2, len(b)-1), ite(len(b) != 0 && b[len(b)-1] == '\r', len(b)-1, len(b)))
+//@   ensures forall(k, 0, len(result), result[k] == old(b[k]))
+
+//@ func CrLfTrimRune [C08 C19]
+//@   ensures len(result) == ite(len(r) != 0 && r[len(r)-1] == '\n', ite(len(r)-1 != 0 && r[len(r)-2] == '\r', len(r)-2, len(r)-1), ite(len(r) != 0 && r[len(r)-1] == '\r', len(r)-1, len(r)))
+//@   ensures forall(k, 0, len(result), result[k] == old(r[k]))
